@@ -73,7 +73,10 @@ mod bucket;
 #[cfg(feature = "verif")]
 pub mod bucket;
 mod config;
+#[cfg(not(feature = "verif"))]
 mod executor;
+#[cfg(feature = "verif")]
+pub mod executor;
 mod handle;
 #[cfg(not(feature = "verif"))]
 mod message;
